@@ -424,7 +424,7 @@ def run(ctx):
     systems = ["conv8", "burgers4", "euler4"]
     ctx.pmap("step-time-advance", shard_step, names)
     # start times: 0, a generic one, and a very late one (2^27: one step is a few 1e-10 of the clock, still ~1e6 ulps of it)
-    cfg = [(i, s, t0, ctx.tier) for i in names for s in systems for t0 in (0.0, 0.75, LATE)]
+    cfg = [(i, s, t0, ctx.tier) for i in names for s in systems for t0 in (0.0, 0.75, -3.25, LATE)]
     if ctx.thorough:
         # another CFL number (steps not exactly representable), save times handed over as a numpy array instead of a list
         cfg += [(i, s, t0, "quick", 0.3, True) for i in names for s in systems for t0 in (0.0, 0.75)]
